@@ -144,9 +144,14 @@ def streams(rng, tier):
     s3 = Stream("interop-hostile", "hserde", h_ops, model_ops=[model_op(o) for o in h_ops], judge=judge_ide,
                 rule="ide <type> <strict prefix | one-byte mutation>", nontrivial=lambda op, impl: "err" in impl)
     s4 = extra_stream(rng, tier)
-    for s in (s1, s2, s3, s4):
+    kops = [f"ikey {k} {sd}" for k in ("tup", "unit", "vec", "opt", "arr", "map", "nested") for sd in range(60 if tier == "quick" else 2000)]
+    s5 = Stream("maps-with-composite-keys", "hserde", kops, model_ops=["nop"] * len(kops),
+                judge=lambda op, impl, model, spec: "ok" if impl.startswith("ok ") else "violation",
+                rule="ikey: BTreeMaps keyed by tuples, (), vectors, options, fixed arrays and maps (the model's ordered maps have scalar keys only, so no model op): "
+                     "native and bridge write the same bytes, and each decoder gives the map back from them")
+    for s in (s1, s2, s3, s4, s5):
         s.shrinkable = False
-    return [s1, s2, s3, s4]
+    return [s1, s2, s3, s4, s5]
 
 
 def judge_extra(op, impl, model, spec):
@@ -252,6 +257,8 @@ def extra_stream(rng, tier):
 
 
 def replay_streams(rp):
+    if (rp.get("original_op") or rp.get("op", "")).startswith("ikey"):
+        return [Stream("replay", "hserde", [rp.get("original_op") or rp["op"]], model_ops=["nop"], judge=lambda op, impl, model, spec: "ok" if impl.startswith("ok ") else "violation")]
     op = rp.get("original_op") or rp["op"]
     if op.startswith(("ideb", "iserh", "ides2")):
         s = Stream("replay", "hserde", [op], model_ops=["nop"], judge=judge_extra)
